@@ -69,7 +69,7 @@ def expected_tree(spec):
                 run = None
             out.append(expected_tree(k))
         else:
-            txt = k[1] if k[0] == "T" else num_text(k)
+            txt = k[1] if k[0] in ("T", "TS") else num_text(k)
             run = txt if run is None else run + txt
     if run is not None:
         out.append(run)
@@ -324,7 +324,7 @@ def plan(tier):
     IA = lambda k: E("a", False, k, [["href", "p q/é?a=1&b=2#f \"x\""], ["hidden", True]])   # noqa: E731
     IM = lambda k: E("img", False, k, [["src", "a b.png"], ["alt", "x"]])                    # noqa: E731
     L_full = [T("a"), T("<&>\"'"), ["N", 7], ["N", 2.5], T(" s "), T(""), T("l1\nl2 \n l3"),
-              T("&lt;b&gt; &amp;amp; &#65; &nbsp;")]
+              T("&lt;b&gt; &amp;amp; &#65; &nbsp;"), ["TS", "sub<text"]]
     L_red = [T("a"), T("<&>\"'"), ["N", 7]]
     t1 = trees(Const(L_full), [B, I_, Vb, Vi, C, BA, IA, IM], 1, 3 if tier == "quick" else 4)
     out.append(dict(kind="space", name="wide-shallow", space=only_elements(t1), fn=fn,
